@@ -243,6 +243,11 @@ def gen_step(rng, fmt, dest_state, overwrite, fault, encoding, names, idx):
         name = base + ext
     label['resolution'] = res
     prep = []
+    # a quarter of the steps work in a sub-directory while the process'
+    # working directory stays the disk root (relative symlink targets are
+    # relative to the LINK, not to the working directory)
+    sub = 'sub/' if rng.chance(0.25) else ''
+    name = sub + name
     if dest_state == 'reuse' and names:
         name = rng.pick(names)
         implied = [f for e, f in ALL_EXT.items() if name.lower().endswith(e)]
@@ -250,14 +255,14 @@ def gen_step(rng, fmt, dest_state, overwrite, fault, encoding, names, idx):
             step['format'] = fmt      # a reused name decides nothing
             label['resolution'] = 'explicit'
     elif dest_state == 'missing_dir':
-        name = f'nodir{idx}/' + name
+        name = f'nodir{idx}/' + os.path.basename(name)
     elif dest_state == 'file_empty':
         prep.append({'op': 'mkfile', 'path': name, 'content': 'empty'})
     elif dest_state == 'file_junk':
         prep.append({'op': 'mkfile', 'path': name,
                      'content': rng.pick(['junk', 'text'])})
     elif dest_state == 'symlink_file':
-        prep.append({'op': 'mkfile', 'path': f'target{idx}.dat',
+        prep.append({'op': 'mkfile', 'path': f'{sub}target{idx}.dat',
                      'content': rng.pick(['junk', 'text', 'empty'])})
         prep.append({'op': 'symlink', 'path': name,
                      'target': f'target{idx}.dat'})
@@ -265,7 +270,7 @@ def gen_step(rng, fmt, dest_state, overwrite, fault, encoding, names, idx):
         prep.append({'op': 'symlink', 'path': name,
                      'target': f'nothing{idx}.dat'})
     elif dest_state == 'symlink_dir':
-        prep.append({'op': 'mkdir', 'path': f'adir{idx}'})
+        prep.append({'op': 'mkdir', 'path': f'{sub}adir{idx}'})
         prep.append({'op': 'symlink', 'path': name, 'target': f'adir{idx}'})
     elif dest_state == 'directory':
         prep.append({'op': 'mkdir', 'path': name})
@@ -306,7 +311,7 @@ def gen_plan(seed, index, tier='quick'):
                                ('unencodable', 1)]))
         st = gen_step(ops, c[0], c[1], c[2], c[3], cfg['encoding'], names, i)
         steps.append(st)
-        if st['dest'] not in names and '/' not in st['dest']:
+        if st['dest'] not in names and not st['dest'].startswith('nodir'):
             names.append(st['dest'])
     return {'engine': ENGINE, 'property': PROPERTY, 'seed': seed,
             'index': index, 'cell': [fmt, dest_state, overwrite, fault],
